@@ -344,3 +344,53 @@ def rule_visitor_dispatch(em, rep, rid):
         if 'fall' in cfg.exits and cfg.exits['fall'] in cfg.live:
             rep.note(rid, '%s can return None for an unexpected context shape (the None reaches an attribute access and raises late)' % m.qname, m.loc())
     rep.ok(rid, 'visitor', '%d visit methods examined' % n, None, nontrivial=False)
+
+
+def rule_rejections_not_swallowed(em, rep, rid, g):
+    rep.rule(rid, 'in the compile pipeline and its helpers, no handler around a lexing or parsing call (stream.fill(), a parser rule '
+                  'method) catches the exception that rejects the input and carries on - unless it rewinds the token stream '
+                  '(seek(0)/reset()) and parses again with raising error handling: otherwise input that was rejected once is '
+                  'compiled from wherever the first attempt stopped, or a lexical error is simply forgotten')
+    views = pipeline_function(em)
+    comp = em.repo.module('compiler')
+    funcs = []
+    for v in views:
+        for f in [v.origin] + list(v.inlined):
+            if f not in funcs:
+                funcs.append(f)
+        for f in em.cg.reachable([v.origin], with_refs=False, include_nested=True):
+            if f.module is comp and f not in funcs:
+                funcs.append(f)
+    n = 0
+    for f in funcs:
+        mt = ExcMatcher(em.repo, f)
+        for t in [x for x in own_nodes_ordered(f.node) if isinstance(x, ast.Try) and x.handlers]:
+            calls = [c for b in t.body for c in ast.walk(b) if isinstance(c, ast.Call) and isinstance(c.func, ast.Attribute) and
+                     (c.func.attr in ('fill', 'nextToken', 'getAllTokens') or (c.func.attr in g.rules and not g.is_lexer_rule(c.func.attr)))]
+            # ... or a helper of the module that parses
+            calls += [c for b in t.body for c in ast.walk(b) if isinstance(c, ast.Call) and isinstance(c.func, ast.Name) and
+                      c.func.id in comp.functions and any(isinstance(y, ast.Call) and isinstance(y.func, ast.Attribute) and y.func.attr in g.rules
+                                                          and not g.is_lexer_rule(y.func.attr) for y in ast.walk(comp.functions[c.func.id].node))]
+            if not calls:
+                continue
+            for h in t.handlers:
+                names = mt.handler_names(h)
+                rejecting = any(nm in ('BaseException', 'Exception', 'RuntimeError', 'ParseCancellationException', 'RecognitionException',
+                                       'CancellationException') for nm in names) or any(
+                    mt.match(nm, h) != 'no' for nm in ('SyntaxCompilerError', 'CompilerError'))
+                if not rejecting:
+                    continue
+                n += 1
+                key = '%s:except %s' % (f.qname, norm(h.type) if h.type else '')
+                last = h.body[-1] if h.body else None
+                reraises = isinstance(last, ast.Raise)
+                rewinds = any(isinstance(x, ast.Call) and isinstance(x.func, ast.Attribute) and x.func.attr in ('seek', 'reset') for b in h.body for x in ast.walk(b))
+                if reraises:
+                    rep.ok(rid, key, 'converts and re-raises', f.loc(h))
+                elif rewinds:
+                    rep.ok(rid, key, 'rewinds the token stream before parsing again', f.loc(h))
+                else:
+                    rep.violation(rid, key, 'the rejection of the input by %s is caught here and the compilation carries on (%s): text that is not '
+                                  'a sentence of the grammar is compiled - from the token where the first attempt stopped, or with the '
+                                  'offending characters dropped' % (norm(calls[0])[:40], norm(last)[:40] if last is not None else 'pass'), f.loc(h))
+    rep.ok(rid, 'pipeline', '%d function(s) of the pipeline examined, %d handler(s) around lexing/parsing calls' % (len(funcs), n), None, nontrivial=False)
